@@ -588,12 +588,52 @@ pub fn test(r: &RawTree, ev: &mut Ev, opts: &ModelOpts, tag: &str) -> Result<(),
     result
 }
 
+/// Many sibling includes and a deep (but reasonable) chain: every include gives back what it took.
+fn many_includes_leg(ev: &mut Ev) {
+    for (siblings, depth) in [(10usize, 3usize), (70, 10), (200, 40), (1000, 60)] {
+        ev.eval();
+        ev.class("many-includes-leg");
+        let root = scratch_dir().join(format!("c11-many-{}", siblings));
+        let _ = std::fs::remove_dir_all(&root);
+        let _ = std::fs::create_dir_all(root.join("inc"));
+        let mut main = String::from(".includepath \"inc\"\n");
+        let mut flat = String::new();
+        for i in 0..siblings {
+            main.push_str(&format!(".include \"s{}.inc\"\n", i));
+            let body = format!("ms_{}: .dw {}\n", i, i);
+            let _ = std::fs::write(root.join("inc").join(format!("s{}.inc", i)), &body);
+            flat.push_str(&body);
+        }
+        main.push_str(".include \"d0.inc\"\n");
+        for d in 0..depth {
+            let mut body = format!("md_{}: .dw {}\n", d, 1000 + d);
+            flat.push_str(&body);
+            if d + 1 < depth {
+                body.push_str(&format!(".include \"d{}.inc\"\n", d + 1));
+            }
+            let _ = std::fs::write(root.join("inc").join(format!("d{}.inc", d)), &body);
+        }
+        let tail = format!(".dw ms_{}, md_{}\n", siblings - 1, depth - 1);
+        main.push_str(&tail);
+        flat.push_str(&tail);
+        let _ = std::fs::write(root.join("main.asm"), &main);
+        ev.nt(fp(&(siblings, depth)));
+        let tree_out = build_file(root.join("main.asm"), BTreeSet::new());
+        let flat_out = build(&flat);
+        if let Err((k, why)) = compare(&tree_out, &flat_out, &[]) {
+            ev.violation(Violation { sig: format!("c11:many-includes:{}", k), what: format!("{} sibling includes and a chain of depth {}: {}", siblings, depth, why), replay: json!({"kind": "many_includes", "siblings": siblings, "depth": depth}) });
+        }
+        let _ = std::fs::remove_dir_all(&root);
+    }
+}
+
 pub fn run(ctx: &Ctx) -> Result<Ev, String> {
     let opts = ModelOpts { devices: model::model_devices() };
     let shards = 32usize;
     let per = (if ctx.thorough { 150_000 } else { 12_000 } / shards).max(1) as u32;
     let seed = ctx.seed;
-    let total = par::run_shards("C11", shards, |s| par::prop_shard("C11", seed, s, per, &raw_tree(), |c, ev| test(c, ev, &opts, &format!("{}", s))));
+    let mut total = par::run_shards("C11", shards, |s| par::prop_shard("C11", seed, s, per, &raw_tree(), |c, ev| test(c, ev, &opts, &format!("{}", s))));
+    many_includes_leg(&mut total);
     if total.has_violation() {
         return Ok(total);
     }
